@@ -32,6 +32,11 @@ type c18Result struct {
 // evalChunks feeds the chunks to successive Eval calls of one fresh VM (import aliases persisted,
 // as the REPL does) and then reads the listed globals with one more call.
 func evalChunked(chunks []string, globals []string) (res c18Result, finals string) {
+	return evalChunkedIn(fstest.MapFS{}, chunks, globals)
+}
+
+// evalChunkedIn: the same with script packages to import
+func evalChunkedIn(sys fstest.MapFS, chunks []string, globals []string) (res c18Result, finals string) {
 	var w bytes.Buffer
 	vm := goat.New(goat.WithStdout(&w))
 	imports := map[string]string{}
@@ -40,7 +45,7 @@ func evalChunked(chunks []string, globals []string) (res c18Result, finals strin
 	for _, ch := range chunks {
 		var rets []goat.Value
 		var err error
-		if e := try(func() { rets, err = vm.Eval(fstest.MapFS{}, "main", ch, goat.WithEvalImports(imports)) }); e != nil {
+		if e := try(func() { rets, err = vm.Eval(sys, "main", ch, goat.WithEvalImports(imports)) }); e != nil {
 			err = fmt.Errorf("PANIC %v", e)
 		}
 		for _, v := range rets {
@@ -54,7 +59,7 @@ func evalChunked(chunks []string, globals []string) (res c18Result, finals strin
 	res.out = w.String()
 	if res.err == "" && len(globals) > 0 {
 		w.Reset()
-		if _, err := vm.Eval(fstest.MapFS{}, "main", "println("+strings.Join(globals, ", ")+")", goat.WithEvalImports(imports)); err != nil {
+		if _, err := vm.Eval(sys, "main", "println("+strings.Join(globals, ", ")+")", goat.WithEvalImports(imports)); err != nil {
 			finals = "ERR " + err.Error()
 		} else {
 			finals = strings.TrimSpace(w.String())
@@ -476,7 +481,104 @@ func (c *Ctx) c18Rich(n int) {
 	}
 }
 
+// c18Fixed: handwritten statement sequences, whole against every cutting into two chunks and one statement per call
+func (c *Ctx) c18Fixed(cut string, sys fstest.MapFS, stmts []string, globals []string) (whole c18Result, differs bool) {
+	whole, wfin := evalChunkedIn(sys, []string{strings.Join(stmts, "\n")}, globals)
+	cuts := [][]string{stmts}
+	for k := 1; k < len(stmts); k++ {
+		cuts = append(cuts, []string{strings.Join(stmts[:k], "\n"), strings.Join(stmts[k:], "\n")})
+	}
+	for _, chunks := range cuts {
+		got, gfin := evalChunkedIn(sys, chunks, globals)
+		c.Rep.Oracle[cut]++
+		if got.err != whole.err || got.out != whole.out || strings.Join(got.rets, ",") != strings.Join(whole.rets, ",") || gfin != wfin {
+			c.Rep.Violate(Violation{Kind: "oracle", Cut: cut, Input: map[string]any{"chunks": chunks},
+				Impl:   fmt.Sprintf("err=%s\nout=%s\nrets=%v\nglobals=%s", got.err, got.out, got.rets, gfin),
+				Oracle: fmt.Sprintf("err=%s\nout=%s\nrets=%v\nglobals=%s", whole.err, whole.out, whole.rets, wfin)})
+			return whole, true
+		}
+	}
+	return whole, false
+}
+
+// c18LiteralTypes: function literals that declare local types. Every Eval call counts its lines from 1, so literals of
+// different calls share their position - and a literal is named by its position: the later one must not see the types
+// of the earlier one (enterFunc forgets them; the tie Gen.enterFuncDrops)
+func (c *Ctx) c18LiteralTypes() {
+	for _, stmts := range [][]string{
+		{"mk := func() any { type T struct { id int; tag string }; return &T{id: 1, tag: \"t\"} }", "pr := func() any { type T struct { name string }; return &T{name: \"xyz\"} }", "println(mk())", "println(pr())"},
+		{"f1 := func(a int) int { type T struct { a int }; t := &T{a: a}; return t.a + 1 }", "f2 := func(T int) int { y := T + 90; return y }", "x := f1(1)", "y := f2(8)", "println(x, y)", "y"},
+		{"func one() any { g := func() any { type P struct { x int }; return &P{x: 3} }; return g() }", "func two() any { g := func() any { type P struct { s string; n int }; return &P{s: \"s\"} }; return g() }", "println(one(), two())"},
+		{"h := func() any { type T struct { a int }; return &T{a: 1} }", "h = func() any { type T struct { b string }; return &T{b: \"b\"} }", "println(h())"},
+	} {
+		c.Rep.Count("literal-types")
+		if whole, _ := c.c18Fixed("whole-vs-cut-literal-types", fstest.MapFS{}, stmts, nil); whole.err != "" {
+			c.Rep.Violate(Violation{Kind: "oracle", Cut: "whole-vs-cut-literal-types", Input: stmts, Impl: whole.err, Oracle: "evaluates as a whole"})
+		}
+	}
+}
+
+// c18Packages: imports of script packages at any cut. The packages here have no visible initialisation (functions,
+// constants and variables nobody changes): evaluating them again is invisible - see c18OpenFindings for the others
+func (c *Ctx) c18Packages() {
+	sys := fstest.MapFS{
+		"geom/geom.go":  {Data: []byte("package geom\n\nconst Unit = 3\n\nvar Names = []string{\"w\", \"h\"}\n\ntype Rect struct {\n\tW, H int\n}\n\nfunc (r *Rect) Area() int {\n\treturn r.W * r.H * Unit\n}\n\nfunc Area(w, h int) int {\n\treturn w * h * Unit\n}\n")},
+		"text/text.go":  {Data: []byte("package text\n\nimport \"geom\"\n\nfunc Label(w, h int) string {\n\treturn geom.Names[0] + \"x\" + geom.Names[1]\n}\n\nfunc Twice(w int) int {\n\treturn geom.Area(w, 2)\n}\n")},
+		"deep/er/er.go": {Data: []byte("package er\n\nimport (\n\t\"geom\"\n\t\"text\"\n)\n\nfunc Sum(w int) int {\n\treturn text.Twice(w) + geom.Unit\n}\n")},
+		"vendor/v/v.go": {Data: []byte("package v\n\nfunc V() int {\n\treturn 7\n}\n")},
+	}
+	for _, stmts := range [][]string{
+		{"import \"geom\"", "a := geom.Area(2, 3)", "import \"text\"", "b := text.Twice(a)", "println(a, b, text.Label(1, 2))", "b"},
+		{"import \"text\"", "import \"geom\"", "r := &geom.Rect{W: 2, H: 5}", "println(r.Area(), text.Twice(1))", "import \"deep/er\"", "x := er.Sum(r.W)", "x"},
+		{"import \"deep/er\"", "s := er.Sum(4)", "import \"v\"", "import \"fmt\"", "fmt.Println(s, v.V())", "func f() int { return er.Sum(1) + v.V() }", "f()"},
+		{"import (\n\tg \"geom\"\n)", "import \"geom\"", "println(g.Unit, geom.Unit, g.Area(1, 1))", "func area(w int) int { return g.Area(w, w) }", "import \"text\"", "area(3) + text.Twice(1)"},
+	} {
+		c.Rep.Count("script-package-imports")
+		if whole, _ := c.c18Fixed("whole-vs-cut-packages", sys, stmts, nil); whole.err != "" {
+			c.Rep.Violate(Violation{Kind: "oracle", Cut: "whole-vs-cut-packages", Input: stmts, Impl: whole.err, Oracle: "evaluates as a whole"})
+		}
+	}
+}
+
+// c18OpenFindings replays the recorded, unrepaired defects (known_findings.json): each witness is evaluated whole and
+// one statement per call; while the two still differ as recorded the finding is listed, a witness that stops
+// differing is silent, any other difference is a violation of its own
+func (c *Ctx) c18OpenFindings() {
+	libs := fstest.MapFS{
+		"liba/a.go": {Data: []byte("package liba\n\nvar N = 0\n\nfunc init() {\n\tprintln(\"liba init\")\n}\n\nfunc Inc() int {\n\tN++\n\treturn N\n}\n")},
+		"libb/b.go": {Data: []byte("package libb\n\nimport \"liba\"\n\nfunc init() {\n\tprintln(\"libb init\", liba.N)\n}\n\nfunc Get() int {\n\treturn liba.N\n}\n")},
+		"liby/y.go": {Data: []byte("package liby\n\nfunc init() {\n\tprintln(\"liby init\")\n}\n")},
+		"libz/z.go": {Data: []byte("package libz\n\nfunc init() {\n\tprintln(\"libz init\")\n}\n")},
+	}
+	for _, w := range []struct {
+		id    string
+		stmts []string
+	}{
+		{"eval-import-runs-package-again", []string{"import \"liba\"", "import \"libb\"", "x := libb.Get()", "x"}},
+		{"eval-import-order", []string{"import \"libz\"", "import \"liby\"", "1"}},
+		{"eval-statement-glued-to-previous-line", []string{"a := 5", "-a"}},
+	} {
+		whole, _ := evalChunkedIn(libs, []string{strings.Join(w.stmts, "\n")}, nil)
+		each, _ := evalChunkedIn(libs, w.stmts, nil)
+		c.Rep.Oracle["open-finding-witness"]++
+		if whole.err == each.err && whole.out == each.out && strings.Join(whole.rets, ",") == strings.Join(each.rets, ",") {
+			continue
+		}
+		show := func(r c18Result) string {
+			return fmt.Sprintf("out=%q rets=%v err=%s", r.out, r.rets, r.err)
+		}
+		if f, ok := c.Findings[w.id]; ok {
+			c.Rep.Known = append(c.Rep.Known, w.id+": "+f.What+" (witness "+strings.Join(w.stmts, " / ")+": whole "+show(whole)+", one statement per call "+show(each)+")")
+			continue
+		}
+		c.Rep.Violate(Violation{Kind: "oracle", Cut: "open-finding-witness", Input: w.stmts, Impl: show(each), Oracle: show(whole)})
+	}
+}
+
 func runC18(c *Ctx) error {
+	c.c18OpenFindings()
+	c.c18LiteralTypes()
+	c.c18Packages()
 	c.Rep.Rule = "eval: programs of 3..16 top-level statements of the model's kinds (:= / var definitions, = and += assignments, println, expression statements, functions incl. re-definition with late-bound globals, top-level for loops and ifs; 3% with a use before definition) evaluated whole, one statement per Eval and in a random cutting (chunks of 1..4), each compared with the model on the same cutting; whole-vs-cut: progen top-level programs (type, method and function declarations, helpers, variables of int/bool/string/slice/map/struct types, if/for/switch/range, multi-value calls, closures-free calls, expression statements, optional import) evaluated whole and in three cuttings; distinct = distinct program; non-trivial = more than 5 / 10 statements"
 	nt, nr := 500, 300
 	if c.Thorough() {
